@@ -33,8 +33,9 @@ def oracle(rec):
     for tok, evs in S.instances(rec).items():
         prev_calls = None
         for e in evs:
-            if e.get('k') == 'task':
-                c = call_of_event(e)
+            if e.get('k') in ('task', 'init'):
+                # worker_init touches the state as well; a worker started by apply_async runs it later, at its first map chunk
+                c = call_of_event(e) if e.get('k') == 'task' else None
                 if c is not None:
                     inst_of_call[c].add(tok)
                 if 'state_token' in e:
